@@ -233,7 +233,13 @@ impl Tzif {
                     })
                 }
             }
-            Err(idx) if idx == 0 => Ok(get_timezone_offset(db, idx)),
+            // <https://datatracker.ietf.org/doc/html/rfc8536#section-3.2>
+            // Local time for timestamps before the first transition is specified by the
+            // first time type (time type 0).
+            Err(idx) if idx == 0 => Ok(TimeZoneOffset {
+                offset: db.local_time_type_records[0].utoff.0,
+                transition_epoch: None,
+            }),
             Err(idx) => {
                 if db.transition_times.len() <= idx {
                     // The transition time provided is beyond the length of
@@ -277,9 +283,9 @@ impl Tzif {
             Err(idx) => idx,
         };
 
-        if estimated_idx == 0 {
+        if db.transition_times.is_empty() {
             return Ok(LocalTimeRecordResult::Single(
-                get_local_record(db, estimated_idx).into(),
+                db.local_time_type_records[0].into(),
             ));
         }
 
@@ -292,7 +298,12 @@ impl Tzif {
         let mut second: Option<LocalTimeRecord> = None;
         let mut interval = estimated_idx.saturating_sub(2);
         while interval <= estimated_idx + 2 && interval < transition_count {
-            let record = get_local_record(db, interval.saturating_sub(1));
+            // Interval 0 precedes the first transition: time type 0 is in force there.
+            let record = if interval == 0 {
+                db.local_time_type_records[0]
+            } else {
+                get_local_record(db, interval - 1)
+            };
             let instant = seconds.0 - record.utoff.0;
             let after_start = interval == 0 || db.transition_times[interval - 1].0 <= instant;
             let before_end = instant < db.transition_times[interval].0;
